@@ -73,6 +73,7 @@ type gen struct {
 	vars                 []*varDef
 	frags                []string
 	nfrag                int
+	aliasSeq, twinVar    int
 	labels               map[string]bool
 	leafOnly, noTypename int
 	noNamed              int // > 0: no named fragments (spreads) are generated
@@ -100,8 +101,21 @@ func (g *gen) chance(pct int, label string) bool {
 
 func (g *gen) label(l string) { g.labels[l] = true }
 
+// freshAlias numbers aliases by the size of the scope; in a scope forked for one object type the number is unique
+// in the whole operation, so two fragments on different object types share a response key only by selecting the
+// same field (with other arguments), never two fields of different shape.
+func (g *gen) freshAlias(sc *scope, prefix string) string {
+	if sc.forked {
+		g.aliasSeq++
+		return fmt.Sprintf("%sf%d", prefix, g.aliasSeq)
+	}
+	return fmt.Sprintf("%s%d", prefix, len(sc.keys))
+}
+
 type scope struct {
-	noHelpers bool // closed gates: no id/__typename in a scope with type-conditioned fragments
+	noHelpers bool     // closed gates: no id/__typename in a scope with type-conditioned fragments
+	twins     []string // forked scope: leaf fields the fragments on sibling object types selected (re-selected with other arguments)
+	forked    bool     // a copy made by forkForType: aliases are globally fresh, so a shared key is always the same field
 	dirKeys   map[string]bool
 	fragKeys  map[string]bool // keys first selected inside a fragment
 	inFrag    int
@@ -111,6 +125,28 @@ type scope struct {
 }
 
 func newScope() *scope { return &scope{keys: map[string]string{}} }
+
+// forkForType copies the scope for a fragment on one object type below an abstract type: what the fragment selects
+// meets the directly selected fields in one object, but never the selections of a fragment on another object type.
+func (sc *scope) forkForType() *scope {
+	c := &scope{forked: true, noHelpers: sc.noHelpers, inFrag: sc.inFrag, keys: map[string]string{}, names: append([]string{}, sc.names...)}
+	for k, v := range sc.keys {
+		c.keys[k] = v
+	}
+	if sc.dirKeys != nil {
+		c.dirKeys = map[string]bool{}
+		for k, v := range sc.dirKeys {
+			c.dirKeys[k] = v
+		}
+	}
+	if sc.fragKeys != nil {
+		c.fragKeys = map[string]bool{}
+		for k, v := range sc.fragKeys {
+			c.fragKeys[k] = v
+		}
+	}
+	return c
+}
 
 func isLeaf(s *ast.Schema, t *ast.Type) bool {
 	d := s.Types[t.Name()]
@@ -390,8 +426,9 @@ func (g *gen) selections(def *ast.Definition, depth int, sc *scope) string {
 		if g.noFrags > 0 && def.Kind != ast.Union {
 			// no type fragments wanted here
 		} else if def.Kind == ast.Union || !g.chance(40, "plainabstract") {
+			all := len(pts) > 1 && g.chance(35, "allpts")
 			for _, pt := range pts {
-				if g.chance(55, "ptfrag") {
+				if all || g.chance(55, "ptfrag") {
 					fragTypes = append(fragTypes, pt)
 				}
 			}
@@ -404,6 +441,19 @@ func (g *gen) selections(def *ast.Definition, depth int, sc *scope) string {
 	if avoidHelpers && (len(fragTypes) > 0 || selfInline && !selfNoCond) {
 		sc.noHelpers = true
 	}
+	if avoidHelpers && len(fragTypes) > 0 {
+		// a fragment on a type with nothing but id to select would fall back to __typename, a helper field
+		var keep []*ast.Definition
+		for _, pt := range fragTypes {
+			for _, f := range g.fieldsOf(pt) {
+				if isLeaf(g.s, f.Type) && !hasRequiredArgs(f) && f.Name != "id" {
+					keep = append(keep, pt)
+					break
+				}
+			}
+		}
+		fragTypes = keep
+	}
 	if sc.inFrag > 0 && abstract && g.o.Avoid["op.abstractScopeNestedFragments"] {
 		fragTypes = nil
 	}
@@ -411,6 +461,23 @@ func (g *gen) selections(def *ast.Definition, depth int, sc *scope) string {
 		if _, ok := sc.keys["__typename"]; !ok {
 			sc.keys["__typename"] = "__typename"
 			parts = append(parts, "__typename")
+		}
+	}
+	if tw := sc.twins; len(tw) > 0 {
+		// the same leaf field as in the fragment on a sibling object type: one response key, possibly other arguments
+		sc.twins = nil
+		for _, name := range tw {
+			f := def.Fields.ForName(name)
+			if f == nil || !isLeaf(g.s, f.Type) || name == "id" || name == "__typename" || !g.chance(70, "twin") {
+				continue
+			}
+			g.twinVar++
+			s := g.field(def, f, depth+1, sc)
+			g.twinVar--
+			if s != "" {
+				parts = append(parts, s)
+				g.label("twinField")
+			}
 		}
 	}
 	if len(fields) > 0 {
@@ -437,7 +504,16 @@ func (g *gen) selections(def *ast.Definition, depth int, sc *scope) string {
 			}
 		}
 	}
+	var twins []string
 	for _, pt := range fragTypes {
+		if pt.Kind == ast.Object && len(fragTypes) > 1 && g.chance(75, "forktype") {
+			fsc := sc.forkForType()
+			fsc.twins = twins
+			nbefore := len(fsc.names)
+			parts = append(parts, g.fragmentOn(pt, depth, fsc))
+			twins = append(twins, fsc.names[nbefore:]...)
+			continue
+		}
 		parts = append(parts, g.fragmentOn(pt, depth, sc))
 	}
 	if selfInline {
@@ -463,6 +539,19 @@ func (g *gen) selections(def *ast.Definition, depth int, sc *scope) string {
 		}
 		if g.noTypename > 0 {
 			return "id"
+		}
+		if sc.noHelpers && g.o.Aliases {
+			// a scope that must stay free of helper fields: a leaf under a fresh key rather than __typename
+			for _, f := range fields {
+				if isLeaf(g.s, f.Type) && !hasRequiredArgs(f) && f.Name != "id" {
+					k := g.freshAlias(sc, "q")
+					if _, used := sc.keys[k]; !used {
+						sc.keys[k] = sigOf(f, "")
+						sc.names = append(sc.names, f.Name)
+						return k + ": " + f.Name
+					}
+				}
+			}
 		}
 		if _, ok := sc.keys["__typename"]; !ok {
 			sc.keys["__typename"] = "__typename"
@@ -628,8 +717,8 @@ func (g *gen) field0(parent *ast.Definition, f *ast.FieldDefinition, depth int, 
 		}
 	}
 	if g.o.Aliases && g.chance(20, "alias") && !(helper && g.o.Avoid["op.idAliased"]) {
-		alias = fmt.Sprintf("%s%d", []string{"a", "x", "al"}[g.pick(3, "aln")], len(sc.keys))
-		if len(sc.names) > 0 && g.chance(25, "aliasSibling") {
+		alias = g.freshAlias(sc, []string{"a", "x", "al"}[g.pick(3, "aln")])
+		if len(sc.names) > 0 && !sc.forked && g.chance(25, "aliasSibling") {
 			cand := sc.names[g.pick(len(sc.names), "sib")]
 			if cand != f.Name {
 				if g.o.AliasSibling && !g.o.Avoid["op.aliasEqualsSiblingName"] && (cand != "id" && cand != "__typename" || !g.o.Avoid["op.aliasIsHelperName"]) {
@@ -638,7 +727,7 @@ func (g *gen) field0(parent *ast.Definition, f *ast.FieldDefinition, depth int, 
 				}
 			}
 		}
-		if _, used := sc.keys["node"]; !used && f.Name != "node" && g.chance(3, "aliasnode") {
+		if _, used := sc.keys["node"]; !used && !sc.forked && f.Name != "node" && g.chance(3, "aliasnode") {
 			alias = "node" // the response key of the gateway's own entity lookups
 		}
 		key = alias
@@ -650,7 +739,7 @@ func (g *gen) field0(parent *ast.Definition, f *ast.FieldDefinition, depth int, 
 		repeated = prev == sig
 		if prev != sig {
 			// would conflict: choose a fresh alias instead
-			alias = fmt.Sprintf("k%d", len(sc.keys))
+			alias = g.freshAlias(sc, "k")
 			key = alias
 			if _, u2 := sc.keys[key]; u2 {
 				return ""
@@ -728,7 +817,11 @@ func (g *gen) arguments(f *ast.FieldDefinition) string {
 
 // argValue renders a value for a position of type t, possibly a variable.
 func (g *gen) argValue(t *ast.Type, posHasDefault bool, depth int) string {
-	if g.o.Variables && g.chance(40, "usevar") {
+	pct := 40
+	if g.twinVar > 0 {
+		pct = 75 // the twin of a field selected for a sibling type: most interesting with a variable of its own
+	}
+	if g.o.Variables && g.chance(pct, "usevar") {
 		g.label("variables")
 		vt := t.String()
 		// stricter type sometimes
